@@ -277,6 +277,27 @@ def execute(plan, want_logs=False):
                 want_keys = 10 + (8 if ref.ndim < 3 else 0)
                 if len(d) != want_keys:
                     report("WRONG_ARITY", "separation.evaluate", "%d scores, expected %d" % (len(d), want_keys))
+                elif not plan["empty"]:
+                    # the 'Frames' entries are outputs of the framewise variants: they must be what the framewise
+                    # function itself returns for the same call (evaluate() is called with and compared under the
+                    # same keywords; which of them it forwards is its own business, so the comparison uses the
+                    # keyword-free call, the only one whose meaning does not depend on forwarding)
+                    ev0 = _call(sep.evaluate, ref, est)
+                    direct = [("Images Frames", _call(sep.bss_eval_images_framewise, ref, est), ["Source to Distortion", "Image to Spatial", "Source to Interference", "Source to Artifact", "Source permutation"])]
+                    if ref.ndim < 3:
+                        direct.append(("Sources Frames", _call(sep.bss_eval_sources_framewise, ref, est), ["Source to Distortion", "Source to Interference", "Source to Artifact", "Source permutation"]))
+                    seams.WARN.take()
+                    stats.inc("evaluate_calls")
+                    if ev0[0] == "ok":
+                        for prefix, dr, keys in direct:
+                            if dr[0] != "ok":
+                                continue
+                            for key, arr in zip(keys, dr[1]):
+                                got = ev0[1].get("%s - %s" % (prefix, key))
+                                if got is None or not _close(np.asarray(got, dtype=float), np.asarray(arr, dtype=float)):
+                                    report("EVALUATE_FRAMES_DIFFER", "separation.evaluate:%s" % prefix,
+                                           "evaluate()['%s - %s'] = %s but the framewise function returns %s" % (
+                                               prefix, key, core.brief(got, 120), core.brief(arr, 120)))
     return {"violations": violations, "stats": stats.dump(), "log_digest": log.digest(), "n_events": log.n,
             "log_events": log.events if want_logs else None}
 
